@@ -15,7 +15,7 @@ import time
 import z3
 
 from engine.bmc import cfg
-from engine.bmc.cfg import IV, W, KNAME, GENEXIT, UEXC, UBASE, EMPTY, UEMPTY, USER_KINDS, NONE, NOTSUB, PENDING, RUNNING, DONE_OK, DONE_EXC, CANCELLED, KILLED
+from engine.bmc.cfg import IV, W, KNAME, GENEXIT, UEXC, UBASE, EMPTY, UEMPTY, USER_KINDS, NONE, NOTSUB, PENDING, RUNNING, DONE_OK, DONE_EXC, CANCELLED, KILLED, LOST
 
 
 def _source_of(funcname):
@@ -203,9 +203,10 @@ def build_lpm(backend, QC, N):
 
 # ----------------------------------------------------------------------------- BMC encoding
 class Bounds:
-    def __init__(self, N, B, Wk=1, K=50, n_exact=None, B_exact=None, W_exact=None):
+    def __init__(self, N, B, Wk=1, K=50, n_exact=None, B_exact=None, W_exact=None, region=None):
         self.N, self.B, self.Wk, self.K = N, B, Wk, K
         self.n_exact, self.B_exact, self.W_exact = n_exact, B_exact, W_exact
+        self.region = region
 
     def as_dict(self):
         return dict(n_max=self.N, buffer_max=self.B, workers_max=self.Wk, steps=self.K, n=self.n_exact, buffer=self.B_exact, workers=self.W_exact)
@@ -263,6 +264,12 @@ def encode(sysm, bd, mode):
             s.add(Wk == bd.W_exact)
     else:
         s.add(Wk == 1, consts['$taskfail'] == -1, consts['$taskfail_kind'] == UEXC)
+
+    lost_region = z3.And(consts['$taskfail'] >= 0, consts['$taskfail_kind'] == UBASE)
+    if bd.region == 'exclude_lost_worker':
+        s.add(z3.Not(lost_region))
+    elif bd.region == 'only_lost_worker':
+        s.add(lost_region)
 
     def mk(k):
         S = dict(consts)
@@ -337,7 +344,11 @@ def encode(sysm, bd, mode):
             moves.append((nth, en_start, vs))
             for i in range(N):
                 vf = {v: a[v] for v in names}
-                vf[f'st[{i}]'] = z3.If(consts['$taskfail'] == i, IV(DONE_EXC), IV(DONE_OK))
+                if sysm.pool_kind in ('mpool', 'pathos'):
+                    failed = z3.If(consts['$taskfail_kind'] == UBASE, IV(LOST), IV(DONE_EXC))     # worker death: the result never arrives
+                else:
+                    failed = IV(DONE_EXC)                                                        # concurrent.futures transports BaseException too
+                vf[f'st[{i}]'] = z3.If(consts['$taskfail'] == i, failed, IV(DONE_OK))
                 moves.append((nth + 1 + i, a[f'st[{i}]'] == RUNNING, vf))
         nmoves = len(moves)
         s.add(ch[k] >= -1, ch[k] < nmoves)
@@ -453,7 +464,7 @@ def run_query(spec):
             sysm = build_stp(QC)
         else:
             sysm = build_lpm(spec['backend'], QC, spec['N'])
-        bd = Bounds(spec['N'], spec['B'], spec.get('Wk', 1), spec['K'], spec.get('n_exact'), spec.get('B_exact'), spec.get('W_exact'))
+        bd = Bounds(spec['N'], spec['B'], spec.get('Wk', 1), spec['K'], spec.get('n_exact'), spec.get('B_exact'), spec.get('W_exact'), spec.get('region'))
         s0, decode = encode(sysm, bd, spec['mode'])
         # bit-blast + SAT is 2-10x faster than z3's default strategy on these formulas (measured: readahead_started 26 s vs 292 s);
         # VERIF_BMC_SOLVER=default selects the default solver (used to cross-check the two once per encoding change)
